@@ -32,7 +32,9 @@ SuccessComplete(r) == LET o == r.obs sc == r.sc IN
     (o.exit = 0) =>
         /\ (sc.out = "stdout") => (o.stdoutEqualsRef /\ o.outKind = "absent")
         /\ (sc.out # "stdout") => (o.outKind = "file" /\ o.outEqualsRef /\ ~o.stdoutHasSource)
-        /\ o.straceOK => (o.srcWrites = 1 /\ ((sc.out # "stdout") => o.truncOpens = 1))
+        \* written once: one write carries the generated source (to -out, to fd 1, or to a
+        \* temporary that is renamed onto -out); -out is truncated at most once
+        /\ o.straceOK => (o.srcWrites = 1 /\ o.truncOpens <= 1)
 C17(r) == FailureWritesNothing(r) /\ SuccessComplete(r)
 
 (* C18 *)
@@ -41,10 +43,10 @@ C18(r) == r.obs.otherChanged = <<>> /\ (r.obs.straceOK => r.obs.foreignWrites = 
 (* C19 *)
 C19(r) == LET o == r.obs IN
     /\ ~o.timedOut /\ ~o.crashText
-    /\ o.exit \in {0, 1}
-    /\ (o.exit = 1) => o.stderrLen > 0
+    /\ o.exit >= 0
+    /\ (o.exit # 0) => o.stderrLen > 0
     \* where the lookup of an argument is what fails (per spec/Cli.tla), the diagnostic names that argument
-    /\ (o.exit = 1 /\ r.pred.stderr \in {"notfound", "notiface"}) => o.stderrNamesArg
+    /\ (o.exit # 0 /\ r.pred.stderr \in {"notfound", "notiface"}) => o.stderrNamesArg
 
 (* C15 *)
 C15(r) == LET o == r.obs sc == r.sc IN
